@@ -11,6 +11,7 @@ import (
 	"fmt"
 	"math"
 	"os"
+	"path/filepath"
 	"sort"
 	"strconv"
 	"strings"
@@ -98,6 +99,7 @@ func (c dbxCfg) options() *Options {
 var dbxSeries = map[string]labels.Labels{
 	"s1": labels.FromStrings("__name__", "m", "a", "1"),
 	"s2": labels.FromStrings("__name__", "m", "a", "2"),
+	"s3": labels.FromStrings("__name__", "m", "a", "3"),
 }
 
 type dbx struct {
@@ -114,6 +116,16 @@ type dbx struct {
 	extraCheck func(x *dbx) *vx.Fail
 	extraKey   func(x *dbx) string
 	noQueryChk bool
+	// syncEvicted: harnesses whose alphabet evicts series from the head (stale-series /
+	// selected-series compaction) re-base the model's "newest in-order sample" on the head: a
+	// series that is no longer in the head has none.
+	syncEvicted bool
+	// ident: float values encode the series they were appended with (C22).
+	ident bool
+	// refs: last reference returned by an append for each series; useRef makes the next
+	// transaction append through those (possibly outdated) references.
+	refs   map[string]storage.SeriesRef
+	useRef bool
 	// soft reports a violation without failing the transition (known-finding classes for which
 	// the model is tolerant, so that exploration continues behind them).
 	soft func(sig, msg string)
@@ -139,6 +151,25 @@ func (x *dbx) open() error {
 	db.DisableCompactions()
 	x.db = db
 	return nil
+}
+
+// dbxCopyDir copies a data directory as it is (used for unclean restarts).
+func dbxCopyDir(src, dst string) error {
+	return filepath.Walk(src, func(p string, info os.FileInfo, err error) error {
+		if err != nil {
+			return nil
+		}
+		rel, _ := filepath.Rel(src, p)
+		target := filepath.Join(dst, rel)
+		if info.IsDir() {
+			return os.MkdirAll(target, 0o777)
+		}
+		b, err := os.ReadFile(p)
+		if err != nil {
+			return nil
+		}
+		return os.WriteFile(target, b, 0o666)
+	})
 }
 
 func (x *dbx) Close() {
@@ -222,6 +253,9 @@ func (x *dbx) mkValue(sk, kind string) (f float64, h *histogram.Histogram, fh *h
 	switch kind {
 	case "f":
 		f = float64(1000 + n)
+		if x.ident {
+			f += 1e6 * float64(sk[1]-'0')
+		}
 		return f, nil, nil, canonFloat(f)
 	case "g": // bit-identical to the series' newest in-order value when that is a float
 		if s := x.m.series[sk]; s != nil && s.hasInOrder && strings.HasPrefix(s.lastVal, "f:") {
@@ -281,16 +315,18 @@ func (x *dbx) appender() dbxApp {
 }
 
 func (a dbxApp) append(l labels.Labels, t int64, f float64, h *histogram.Histogram, fh *histogram.FloatHistogram) error {
+	_, err := a.appendRef(0, l, t, f, h, fh)
+	return err
+}
+
+func (a dbxApp) appendRef(ref storage.SeriesRef, l labels.Labels, t int64, f float64, h *histogram.Histogram, fh *histogram.FloatHistogram) (storage.SeriesRef, error) {
 	if a.v2 != nil {
-		_, err := a.v2.Append(0, l, 0, t, f, h, fh, storage.AOptions{})
-		return err
+		return a.v2.Append(ref, l, 0, t, f, h, fh, storage.AOptions{})
 	}
 	if h != nil || fh != nil {
-		_, err := a.v1.AppendHistogram(0, l, t, h, fh)
-		return err
+		return a.v1.AppendHistogram(ref, l, t, h, fh)
 	}
-	_, err := a.v1.Append(0, l, t, f)
-	return err
+	return a.v1.Append(ref, l, t, f)
 }
 
 func (a dbxApp) commit() error {
@@ -310,6 +346,13 @@ func (a dbxApp) rollback() error {
 // txn runs one transaction of (series,timeSpec,valueKind) triples; commit or rollback.
 func (x *dbx) txn(triples []string, rollback bool) *vx.Fail {
 	h := x.db.Head()
+	if x.syncEvicted {
+		for sk, ms := range x.m.series {
+			if h.series.getByHash(dbxSeries[sk].Hash(), dbxSeries[sk]) == nil {
+				ms.hasInOrder = false
+			}
+		}
+	}
 	mtx := x.m.begin(h.initialized(), h.MaxTime(), h.minValidTime.Load())
 	app := x.appender()
 	for i := 0; i+3 <= len(triples); i += 3 {
@@ -323,7 +366,14 @@ func (x *dbx) txn(triples []string, rollback bool) *vx.Fail {
 		} else if fh != nil {
 			before = canonFloatHist(fh)
 		}
-		err := app.append(dbxSeries[sk], t, f, hh, fh)
+		var ref storage.SeriesRef
+		if x.useRef {
+			ref = x.refs[sk]
+		}
+		newRef, err := app.appendRef(ref, dbxSeries[sk], t, f, hh, fh)
+		if err == nil && x.refs != nil {
+			x.refs[sk] = newRef
+		}
 		want := mtx.append(sk, t, canon)
 		if got := errClass(err); got != modelErrClass(want) && !(want == mNoopOrDup && (got == "ok" || got == mErrDup)) {
 			_ = app.rollback()
@@ -667,6 +717,9 @@ func (x *dbx) checkQueryable(q storage.Queryable, cq storage.ChunkQueryable, nam
 func (x *dbx) Ops() []string {
 	var ops []string
 	W := x.cfg.W
+	if x.cfg.Alphabet == "c22" {
+		return x.extraOps(x)
+	}
 	if x.cfg.Alphabet == "del" {
 		// deletion-centred alphabet (C20 b): few appends, every delete shape, all maintenance ops
 		ops = []string{"app/s1/F+1/f", "app/s1/B+0/f", "app/s2/F+1/f", "app/s1/F+160/f", "app/s1/F+1/h"}
@@ -770,7 +823,7 @@ func (x *dbx) Key() string {
 		m := b.Meta()
 		fmt.Fprintf(&sb, "|blk[%d,%d)L%d n%d ts%d %v", m.MinTime, m.MaxTime, m.Compaction.Level, m.Stats.NumSamples, m.Stats.NumTombstones, m.Compaction.Hints)
 	}
-	for _, sk := range []string{"s1", "s2"} {
+	for _, sk := range []string{"s1", "s2", "s3"} {
 		s := h.series.getByHash(dbxSeries[sk].Hash(), dbxSeries[sk])
 		if s == nil {
 			continue
@@ -803,4 +856,4 @@ func (x *dbx) Key() string {
 	return sb.String()
 }
 
-var _ = chunks.HeadSeriesRef(0)
+func chunksHeadSeriesRef(r storage.SeriesRef) chunks.HeadSeriesRef { return chunks.HeadSeriesRef(r) }
